@@ -41,7 +41,8 @@ def gen_history(rng):
     pool = ["P", "P", "A", "A", "A2", "Ag", "B", "B", "NB", "NC", "ALL", "AB"] + (["As"] if rng.random() < 0.15 else [])
     steps = []
     for i in range(n):
-        steps.append({"cfg": rng.choice(pool), "fs": rng.choice(["rw", "rw", "rw", "ro", "dw"]), "edit": i > 0 and rng.random() < 0.3})
+        # raises: pk.b cannot be imported in this process (a missing dependency): pk/__init__.py and pk/a.py are compiled, cached and raise at import
+        steps.append({"cfg": rng.choice(pool), "fs": rng.choice(["rw", "rw", "rw", "ro", "dw"]), "edit": i > 0 and rng.random() < 0.3, "raises": rng.random() < 0.2})
     return {"seed": rng.randrange(10 ** 6), "steps": steps}
 
 
@@ -58,6 +59,8 @@ def payload(st):
         p["dont_write"] = True
     if st["fs"] == "ro":
         p["fs"] = "ro"
+    if st.get("raises"):
+        p["block"] = ["pk.b"]
     return p
 
 
@@ -96,7 +99,7 @@ def run_all(hists):
 def view(r):
     if "crash" in r:
         return {"crash": r["crash"][-300:]}
-    return {"errors": [e[2] for e in r["errors"]], "ns": r["ns"], "events": [e[:4] for e in r["events"]]}
+    return {"errors": [[e[0], e[1], e[2]] for e in r["errors"]], "ns": r["ns"], "events": [e[:4] for e in r["events"]]}
 
 
 def oracle(h, r):
@@ -104,9 +107,12 @@ def oracle(h, r):
         a, b = view(r["shared"][k]), view(r["fresh"][k])
         if "crash" in a or "crash" in b:
             return {"what": "process %d crashed: %s" % (k, a.get("crash") or b.get("crash")), "kind": "crash", "step": k}
-        if b["errors"]:
+        if st.get("raises"):
+            if not b["errors"] or [e[:3] for e in b["errors"]] != [e[:3] for e in a["errors"]]:
+                return {"what": "process %d (%s, %s, a dependency missing): errors %s, on an empty cache %s" % (k, st["cfg"], st["fs"], a["errors"], b["errors"]), "kind": "error", "step": k}
+        elif b["errors"]:
             return {"what": "process %d (%s, %s) fails even on an empty cache: %s" % (k, st["cfg"], st["fs"], r["fresh"][k]["errors"][0][:4]), "kind": "fresh-error", "step": k}
-        if a["errors"]:
+        elif a["errors"]:
             return {"what": "process %d (%s, %s) fails after the earlier processes: %s" % (k, st["cfg"], st["fs"], r["shared"][k]["errors"][0][:4]), "kind": "error", "step": k}
         if a["ns"] != b["ns"]:
             return {"what": "process %d (%s): module contents differ from the same import on an empty cache" % (k, st["cfg"]), "kind": "namespace", "step": k}
@@ -157,35 +163,43 @@ def k_cache(ctx, hists, results):
     keys = []
     for hi, h in enumerate(hists):
         for f in MODS:
-            procs, names = [], []
-            for st in h["steps"]:
+            procs, names, taking_part, pending_edit = [], [], [], False
+            for k, st in enumerate(h["steps"]):
+                pending_edit = pending_edit or (st["edit"] and f in ("pk/a.py", "pk/b.py"))
+                if st.get("raises") and f in ("pk/b.py", "sub/c.py"):
+                    continue               # not loaded at all in this process (the edit, if any, is seen by the next process that loads it)
+                taking_part.append(k)
                 ts = [t for t in CONFIGS[st["cfg"]] if accepts(t, f)]
                 who = "[" + "; ".join(tinfo(t) for t in ts) + "]"
                 caching = all(t.get("caching", True) for t in CONFIGS[st["cfg"]])
-                procs.append("{| p_who := %s; p_caching := %s; p_write := %s; p_edit := %s |}"
-                             % (who, "true" if caching else "false", "true" if st["fs"] == "rw" else "false", "true" if st["edit"] and f in ("pk/a.py", "pk/b.py") else "false"))
+                procs.append("{| p_who := %s; p_caching := %s; p_write := %s; p_edit := %s; p_raises := %s |}"
+                             % (who, "true" if caching else "false", "true" if st["fs"] == "rw" else "false", "true" if pending_edit else "false",
+                                "true" if st.get("raises") else "false"))
+                pending_edit = False
                 nm = "[" + "; ".join("(%d, %d)" % (num("cls", t["cls"]), num("cfg", [sorted(t["events"]), t.get("guards", True)])) for t in ts) + "]"
                 if ts and nm not in names:
                     names.append(nm)
             L.append("Eval vm_compute in (run_trace fs0 [%s] [%s])." % ("; ".join(procs), "; ".join(names)))
-            keys.append((hi, f))
+            keys.append((hi, f, taking_part))
     rc_, o = lib.coq_eval("c13_kcache", "\n".join(L) + "\n", timeout=900)
     vals = lib.parse_marked(o) if rc_ == 0 else []
     if rc_ != 0 or len(vals) != len(keys):
         ctx.tie_broken("correspondence", "K-cache: coqc failed (%d values for %d module histories)" % (len(vals), len(keys)), o[-2000:])
         return 0
     bad, okc = [], 0
-    for (hi, f), v in zip(keys, vals):
+    for (hi, f, taking_part), v in zip(keys, vals):
         h, r = hists[hi], results[hi]
-        if any("crash" in x for x in r["shared"] + r["fresh"]) or any(x["errors"] for x in r["fresh"]):
+        if any("crash" in x for x in r["shared"] + r["fresh"]) or any(x["errors"] for x, st in zip(r["fresh"], h["steps"]) if not st.get("raises")):
             continue
         m = lib.parse_coq_list(v)
         base = ic.BASENAME[f][:-3]
         d = "pk/sub/__pycache__/" if f.startswith("sub/") else "pk/__pycache__/"
         obs = []
         for k, st in enumerate(h["steps"]):
+            if k not in taking_part:
+                continue
             a, b = r["shared"][k], r["fresh"][k]
-            same = [e[:4] for e in a["events"] if e[1] == f] == [e[:4] for e in b["events"] if e[1] == f] and not a["errors"]
+            same = [e[:4] for e in a["events"] if e[1] == f] == [e[:4] for e in b["events"] if e[1] == f] and (not a["errors"] or bool(st.get("raises")))
             cache = a["cache"]
             plain = any(c == d + base + ".cpython-312.pyc" for c in cache)
             npyc = sum(1 for c in cache if c.startswith(d + base + ".pyccolo") and c.endswith(".pyc"))
@@ -203,6 +217,10 @@ def k_cache(ctx, hists, results):
 
 
 CORPUS = [
+    # traced import, edit, traced import that raises at import, traced import (fixed 2663f76: all nodes None from then on)
+    {"seed": 21, "steps": [{"cfg": "A", "fs": "rw", "edit": False}, {"cfg": "A", "fs": "rw", "edit": True, "raises": True}, {"cfg": "A", "fs": "rw", "edit": False}, {"cfg": "A", "fs": "rw", "edit": False}]},
+    # ... the same through a like-named tracer that keeps no node table
+    {"seed": 22, "steps": [{"cfg": "NB", "fs": "rw", "edit": False}, {"cfg": "NB", "fs": "rw", "edit": True, "raises": True}, {"cfg": "NB", "fs": "rw", "edit": False}]},
     {"seed": 11, "steps": [{"cfg": "P", "fs": "rw", "edit": False}, {"cfg": "A", "fs": "rw", "edit": False}, {"cfg": "A", "fs": "ro", "edit": False}, {"cfg": "P", "fs": "rw", "edit": False}]},
     {"seed": 12, "steps": [{"cfg": "A", "fs": "rw", "edit": False}, {"cfg": "A", "fs": "rw", "edit": True}, {"cfg": "A", "fs": "rw", "edit": False}]},
     {"seed": 13, "steps": [{"cfg": "ALL", "fs": "rw", "edit": False}, {"cfg": "P", "fs": "rw", "edit": False}, {"cfg": "ALL", "fs": "rw", "edit": False}]},
@@ -235,14 +253,15 @@ def run(ctx, model_ok):
     hist = {}
     for h in hists:
         for s in h["steps"]:
-            k = "%s/%s%s" % (s["cfg"], s["fs"], "/edit" if s["edit"] else "")
+            k = "%s/%s%s%s" % (s["cfg"], s["fs"], "/edit" if s["edit"] else "", "/raises" if s.get("raises") else "")
             hist[k] = hist.get(k, 0) + 1
     return {
         "evaluations": nproc,
         "distinct_nontrivial": len({lib.digest(h) for h in hists if len({s["cfg"] for s in h["steps"]}) >= 2 or any(s["edit"] for s in h["steps"])}),
         "rule": "histories of 2-4 real processes over one package directory; each process imports the package plain or under a tracer configuration (two classes, the same class "
                 "with other events / other guard setting / a static node condition, no node table, caching forbidden, accept-everything, a stack of two) with the cache directory "
-                "writable, read-only (process run unprivileged) or bytecode writing disabled, and the source edited between processes; every process is also run alone on a fresh "
+                "writable, read-only (process run unprivileged) or bytecode writing disabled, the source edited between processes, and in 20% of the processes a dependency missing so that "
+                "two modules are compiled, cached and then raise at import; every process is also run alone on a fresh "
                 "copy at the same source version; non-trivial = at least two configurations or an edit; distinct by sha1",
         "samples": [hists[-1]],
         "traces_validated": okc,
